@@ -72,10 +72,10 @@ def run(chk):
     for kind, ver, w, r in PAIRS:
         wf, rf = prog.func(f"{IO}:{w}"), prog.func(f"{IO}:{r}")
         chk.analysed(wf, rf)
-        codec_pair(chk, kind, ver, wf, rf)
-    r3_schemas(chk)
-    r5_library(chk)
-    r6_collection(chk)
+        chk.call(codec_pair, chk, kind, ver, wf, rf)
+    chk.call(r3_schemas, chk)
+    chk.call(r5_library, chk)
+    chk.call(r6_collection, chk)
 
 
 # ---------------------------------------------------------------------------
